@@ -35,6 +35,9 @@ func (o rlOp) j() J {
 
 var mgrPool = map[int]types.TemplateManager{}
 
+// c18PartialOnFail: a failing build returns a non-nil manager together with its error
+var c18PartialOnFail = false
+
 func poolMgr(id int) types.TemplateManager {
 	if m, ok := mgrPool[id]; ok {
 		return m
@@ -54,6 +57,11 @@ func runReloadImpl(hot bool, first *int, ops []rlOp) (initErr bool, outs []any) 
 	var next *int
 	builder := func(ctx context.Context) (types.TemplateManager, error) {
 		if next == nil {
+			if c18PartialOnFail {
+				// the documented factory idiom `return m, m.ParseWithSuffix(…)`: a usable, partially loaded manager
+				// comes back TOGETHER with the error — the build has failed all the same
+				return poolMgr(777), errBuild
+			}
 			return nil, errBuild
 		}
 		return poolMgr(*next), nil
@@ -239,6 +247,15 @@ func propC18(c *ctx) error {
 					}
 					if jstr(normReloadOuts(outs)) != jstr(normReloadOuts(want)) {
 						res.violate(cs, want, outs, "the renderer does not serve from the most recent successful build / a failed build wrote something / content type rule")
+					}
+					// the same history with failing builds that hand back a partial manager along with the error
+					c18PartialOnFail = true
+					initErr2, outs2 := runReloadImpl(hot, first, prefix)
+					c18PartialOnFail = false
+					res.S3Checked++
+					if initErr2 != !firstOK || jstr(normReloadOuts(outs2)) != jstr(normReloadOuts(want)) {
+						cs2 := J{"hot": hot, "first_build_ok": firstOK, "ops": opsJ, "failed_build_returns_partial_manager": true}
+						res.violate(cs2, want, outs2, "a failed build that returns a (partial) manager together with its error is treated as a success")
 					}
 					if c.d != nil && (len(prefix) == L || len(prefix) <= 2) {
 						var fj any
